@@ -13,13 +13,9 @@ import r_fmt
 import r_cost
 import r_panic
 import r_feat
+import r_rewrite
 
-NA = {
-    "C17": "first-match order of a backtracking trie matcher over runtime rule lists: no structural "
-           "invariant separates a correct builder from the known order defect without exploring "
-           "rule lists (execution, concrete or symbolic) - out of reach of static analysis "
-           "(DESIGN.md section 4)",
-}
+NA = {}
 
 def kind_scope(*mods):
     """KIND restricted to functions whose path contains one of the given fragments."""
@@ -333,6 +329,29 @@ PROPS = {
                       "fields (checked for completeness against the struct definitions); "
                       "spec/api_model.json.",
         "technique": "MIR must-pass-through / dominance rules over access paths, who-may-write",
+    },
+    "C17": {
+        "rules": [r_rewrite.run, kind_scope("trainer::config", "trainer::Trainer::extract_feature_set")],
+        "explanation": "FIRSTMATCH-BUILD: FeatureRewriterBuilder::add_rule moves along an existing "
+                       "trie edge only when that edge is the newest action of its node (or never), "
+                       "and appends new actions: the rules below every edge are then a contiguous "
+                       "run of rule numbers, so depth-first order is rewrite.def order. "
+                       "FIRSTMATCH-SCAN: FeatureRewriter::rewrite walks a node's actions front to "
+                       "back (iter/enumerate/skip only) and returns at the first Rewrite action. "
+                       "REFSUBST: `$n` is stored as index n-1 and expanded to features.get(idx) or "
+                       "\"*\". FALLBACK: extract_feature_set hands the rewritten list (Some) or the "
+                       "original list (None) to the same extractor. SECTIONS: each `[... rewrite]` "
+                       "header fills the builder returned in its own position of (unigram, left, "
+                       "right); KIND ties those positions to the TrainerConfig fields.",
+        "level_text": "Static shape rules. With a depth-first, first-match matcher, `the earliest "
+                      "matching rule applies` is equivalent to `trie order = registration order`, "
+                      "which is the structural invariant FIRSTMATCH-BUILD decides for every rule "
+                      "list. The matcher's backtracking bookkeeping (depth from the stack length) "
+                      "and the per-pattern tests are not decided.",
+        "level_note": "Trusted: rustc MIR; the argument in rules/r_rewrite.py that contiguous rule "
+                      "ranges per edge make depth-first order the registration order.",
+        "technique": "MIR provenance rule (where a reused edge comes from), iterator-chain shape "
+                     "rule, branch-correlation rules, kind propagation",
     },
     "C04": {
         "rules": [r_reset.run_tokens, r_share.run],
